@@ -40,7 +40,7 @@ pub fn run_c05(rep: &mut Report) {
     // ---- all 2048 words through Ps2Decoder::add_word
     for w in 0..2048u16 {
         let want = frame_expect(w);
-        let got = guarded(|| Ps2Decoder::new().add_word(w));
+        let got = guarded(|| crate::scan::fresh_ps2().add_word(w));
         rep.evaluations += 1;
         match got {
             Err(p) => {
@@ -95,7 +95,7 @@ pub fn run_c05(rep: &mut Report) {
     let (mut rt, mut single, mut double, mut double_accepted) = (0u64, 0u64, 0u64, 0u64);
     for b in 0..=255u8 {
         let f = encode_frame(b);
-        let got = guarded(|| Ps2Decoder::new().add_word(f));
+        let got = guarded(|| crate::scan::fresh_ps2().add_word(f));
         rep.evaluations += 1;
         rt += 1;
         if got != Ok(Ok(b)) {
@@ -110,7 +110,7 @@ pub fn run_c05(rep: &mut Report) {
         }
         for i in 0..11 {
             let c = f ^ (1 << i);
-            let got = guarded(|| Ps2Decoder::new().add_word(c));
+            let got = guarded(|| crate::scan::fresh_ps2().add_word(c));
             rep.evaluations += 1;
             single += 1;
             if let Ok(Ok(x)) = got {
@@ -123,7 +123,7 @@ pub fn run_c05(rep: &mut Report) {
             for j in (i + 1)..11 {
                 let c2 = f ^ (1 << i) ^ (1 << j);
                 let want = frame_expect(c2);
-                let got = guarded(|| Ps2Decoder::new().add_word(c2));
+                let got = guarded(|| crate::scan::fresh_ps2().add_word(c2));
                 rep.evaluations += 1;
                 double += 1;
                 if let Ok(Ok(_)) = got {
@@ -170,7 +170,7 @@ pub fn run_c05(rep: &mut Report) {
         for w in 0..2048u16 {
             let want: BitRes = frame_expect(w).map(Some);
             let got = guarded(|| {
-                let mut d = if pname == "default-constructed" { Ps2Decoder::default() } else { Ps2Decoder::new() };
+                let mut d = if pname == "default-constructed" { Ps2Decoder::default() } else { crate::scan::fresh_ps2() };
                 for b in pbits {
                     let _ = d.add_bit(*b);
                 }
@@ -212,7 +212,7 @@ pub fn run_c05(rep: &mut Report) {
     //      must still be judged by the rule
     for (pname, w, n) in [("after-140000-bad-stop-frames", 0x000u16, 140_000u32), ("after-140000-bad-start-frames", 0x7FF, 140_000), ("after-70000-bad-parity-frames", encode_frame(0x33) ^ 0x200, 70_000)] {
         let r = guarded(|| {
-            let mut d = Ps2Decoder::new();
+            let mut d = crate::scan::fresh_ps2();
             for _ in 0..n {
                 for i in 0..11 {
                     let _ = d.add_bit((w >> i) & 1 == 1);
@@ -253,10 +253,10 @@ pub fn run_c05(rep: &mut Report) {
     rep.rule = "all 2048 11-bit words through Ps2Decoder::add_word against an independent frame rule; every valid frame's 11 single-bit and 55 double-bit corruptions; \
                 Keyboard::add_word in every scancode prefix state against rule∘twin decoder; distinct_nontrivial = distinct (word, outcome) pairs observed"
         .into();
-    rep.sample_str(format!("frame {} (0x402) = start 0, data 0x01, parity 0, stop 1 → {:?}", word_bits(0x402), Ps2Decoder::new().add_word(0x402)));
-    rep.sample_str(format!("frame {} (0x403) → {:?}", word_bits(0x403), Ps2Decoder::new().add_word(0x403)));
-    rep.sample_str(format!("frame {} (0x002) → {:?}", word_bits(0x002), Ps2Decoder::new().add_word(0x002)));
-    rep.sample_str(format!("frame {} (0x602) → {:?}", word_bits(0x602), Ps2Decoder::new().add_word(0x602)));
+    rep.sample_str(format!("frame {} (0x402) = start 0, data 0x01, parity 0, stop 1 → {:?}", word_bits(0x402), crate::scan::fresh_ps2().add_word(0x402)));
+    rep.sample_str(format!("frame {} (0x403) → {:?}", word_bits(0x403), crate::scan::fresh_ps2().add_word(0x403)));
+    rep.sample_str(format!("frame {} (0x002) → {:?}", word_bits(0x002), crate::scan::fresh_ps2().add_word(0x002)));
+    rep.sample_str(format!("frame {} (0x602) → {:?}", word_bits(0x602), crate::scan::fresh_ps2().add_word(0x602)));
     rep.assumptions.push("frame layout as documented on add_word: start bit 0, data bits 1..8 LSB first, parity bit 9 (odd), stop bit 10; words with bits above bit 10 are outside the precondition (driven for C08 only)".into());
 }
 
@@ -386,7 +386,7 @@ fn kb_add_word<D: Dec>(rep: &mut Report) {
 /// C06's oracle for a completed frame is the crate's own whole-word decoding (the property is the *equivalence* of
 /// the two entry points; whether whole-word decoding follows the frame rule is C05's subject).
 fn whole_word(w: u16) -> Result<u8, Error> {
-    Ps2Decoder::new().add_word(w)
+    crate::scan::fresh_ps2().add_word(w)
 }
 
 #[derive(Default)]
@@ -409,7 +409,7 @@ fn replay_bits(ops: &[String], want: &str, got: &str) -> J {
 }
 
 fn replay_ops(ops: &[String]) -> Ps2Decoder {
-    let mut d = Ps2Decoder::new();
+    let mut d = crate::scan::fresh_ps2();
     for op in ops {
         if op == "clear" {
             d.clear();
@@ -548,7 +548,7 @@ fn feed_and_check(d: &mut Ps2Decoder, w: u16, prev: &str, prev_ops: &dyn Fn() ->
 fn run_2_32_bits() -> (u64, Option<(String, String)>) {
     let total_frames: u64 = (1u64 << 32) / 11 + 200_000;
     let r = guarded(|| {
-        let mut d = Ps2Decoder::new();
+        let mut d = crate::scan::fresh_ps2();
         let f = [encode_frame(0x1C), encode_frame(0xF0), 0x7FFu16, encode_frame(0x5A)];
         let wants: Vec<BitRes> = f.iter().map(|w| whole_word(*w).map(Some)).collect();
         for n in 0..total_frames {
@@ -580,7 +580,7 @@ fn run_2_32_bits() -> (u64, Option<(String, String)>) {
 
 pub fn run_c06(rep: &mut Report) {
     let long_run = std::thread::spawn(run_2_32_bits);
-    let fresh_dbg = format!("{:?}", Ps2Decoder::new());
+    let fresh_dbg = format!("{:?}", crate::scan::fresh_ps2());
     let mut out = Out::default();
 
     // ---------------------------------------------------------------- (a) partial-state graph by Debug rendering
@@ -593,7 +593,7 @@ pub fn run_c06(rep: &mut Report) {
     while let Some(prefix) = queue.pop_front() {
         for bit in [false, true] {
             let r = guarded(|| {
-                let mut d = Ps2Decoder::new();
+                let mut d = crate::scan::fresh_ps2();
                 for b in &prefix {
                     let _ = d.add_bit(*b);
                 }
@@ -698,7 +698,7 @@ pub fn run_c06(rep: &mut Report) {
         while w1 < 2048 {
             let row = |out: &mut Out| {
                 for w2 in 0..2048u16 {
-                    let mut d = Ps2Decoder::new();
+                    let mut d = crate::scan::fresh_ps2();
                     let none = || Vec::new();
                     feed_and_check(&mut d, w1, "fresh", &none, &fd, false, out);
                     let prev = match frame_class(w1) {
@@ -749,7 +749,7 @@ pub fn run_c06(rep: &mut Report) {
             while w < 2048 {
                 let r = guarded(|| {
                     let mut local = Out::default();
-                    let mut d = Ps2Decoder::new();
+                    let mut d = crate::scan::fresh_ps2();
                     for k in 0..reps_n {
                         let prev = if k == 0 { "fresh".to_string() } else { format!("after-{}-copies-of-the-same-frame", k.min(3)) };
                         let po = || vec![format!("bits:{} (x{})", word_bits(w), k)];
@@ -802,7 +802,7 @@ pub fn run_c06(rep: &mut Report) {
                     let r = guarded(|| {
                         let mut local = Out::default();
                         for w3 in 0..2048u16 {
-                            let mut d = Ps2Decoder::new();
+                            let mut d = crate::scan::fresh_ps2();
                             let none = || Vec::new();
                             feed_and_check(&mut d, *w1, "fresh", &none, &fd, false, &mut local);
                             feed_and_check(&mut d, *w2, "after-one-frame", &none, &fd, false, &mut local);
@@ -846,7 +846,7 @@ pub fn run_c06(rep: &mut Report) {
             let follow = encode_frame(0xA5);
             let wantf: BitRes = whole_word(follow).map(Some);
             let r = guarded(|| {
-                let mut d = Ps2Decoder::new();
+                let mut d = crate::scan::fresh_ps2();
                 for n in 0..run_frames {
                     for i in 0..11 {
                         let r = d.add_bit((w >> i) & 1 == 1);
@@ -923,7 +923,7 @@ pub fn run_c06(rep: &mut Report) {
                     } else {
                         (rng.below(2048)) as u16
                     };
-                    let mut d = Ps2Decoder::new();
+                    let mut d = crate::scan::fresh_ps2();
                     for b in p {
                         let _ = d.add_bit(*b);
                         local.add_bits += 1;
@@ -984,7 +984,7 @@ pub fn run_c06(rep: &mut Report) {
             let hist_len = (if done == 0 { 600_000u64 } else { 20_000u64 }).min(per - done);
             let mut recent: VecDeque<String> = VecDeque::new();
             let r = guarded(|| {
-                let mut d = Ps2Decoder::new();
+                let mut d = crate::scan::fresh_ps2();
                 let mut shadow: Vec<bool> = Vec::with_capacity(11);
                 let mut viol = Vec::new();
                 let mut n = 0u64;
@@ -1127,7 +1127,7 @@ pub fn run_c06(rep: &mut Report) {
         rep.sample_str(format!("partial state {} reached by bits {:?}", s, p.iter().map(|b| *b as u8).collect::<Vec<_>>()));
     }
     for (w1, w2) in [(encode_frame(0x00), encode_frame(0x01)), (0x7FFu16, encode_frame(0x00)), (encode_frame(0x1C) ^ 0x200, encode_frame(0xF0))] {
-        let mut d = Ps2Decoder::new();
+        let mut d = crate::scan::fresh_ps2();
         let mut outs = Vec::new();
         for w in [w1, w2] {
             for i in 0..11 {
